@@ -1007,10 +1007,12 @@ func migrateSetRun(cmd *cobra.Command, args []string, flags migrateSetFlags) (re
 			if err := rrw.DeleteRevision(ctx, r.Version); err != nil {
 				return err
 			}
-		// keep, but if with error mark "fixed"
-		case r.Version == version && (r.Error != "" || r.Total != r.Applied):
+		// keep, but if with error mark "fixed": the user declares every version up to and including the given
+		// one as applied, therefore a partially applied revision must not be resumed (or re-executed) afterwards.
+		case r.Error != "" || r.Total != r.Applied:
 			log.Set(r)
 			r.Type = migrate.RevisionTypeExecute | migrate.RevisionTypeResolved
+			r.Applied = r.Total
 			if err := rrw.WriteRevision(ctx, r); err != nil {
 				return err
 			}
